@@ -4,7 +4,7 @@ import numpy
 import z3
 from vf import core, smt, symnp
 from vf.symnp import SymArr, Sc, Dim, SymNumpy
-from contracts.nonshear_env import patched
+from contracts.nonshear_env import patched, duck_of
 
 LEVEL = "proof"
 EXPLANATION = ("real CijVolumeBaseInterface properties and Calculator._calculate_compliances run on symbolic (T,V) fields of symbolic "
@@ -155,7 +155,7 @@ def run(s):
 
     def run_compliances(ckeys):
         rec.clear()
-        me = types.SimpleNamespace(dims=(nt, ntv), modulus_keys=list(ckeys), modulus_adiabatic={k: C[k] for k in ckeys})
+        me = duck_of(cal.Calculator, dims=(nt, ntv), modulus_keys=list(ckeys), modulus_adiabatic={k: C[k] for k in ckeys})
         with patched(cal, numpy=SymNumpy(extra={"allclose": allclose_stub}, linalg={"inv": inv_stub})):
             cal.Calculator._calculate_compliances(me)
         return me
@@ -395,7 +395,7 @@ def native_vb(cal, Cm, V, cellmass, ckeys=None):
     nt, ntv = Cm.shape[:2]
     qha = types.SimpleNamespace(volume_base=types.SimpleNamespace(v_array=V, t_array=numpy.arange(nt) * 100.0),
                                 t_array=numpy.arange(nt) * 100.0, v_array=V)
-    me = types.SimpleNamespace(dims=(nt, ntv), modulus_keys=list(keys), modulus_adiabatic={k: Cm[:, :, k.voigt[0] - 1, k.voigt[1] - 1] for k in keys},
+    me = duck_of(cal.Calculator, dims=(nt, ntv), modulus_keys=list(keys), modulus_adiabatic={k: Cm[:, :, k.voigt[0] - 1, k.voigt[1] - 1] for k in keys},
                                modulus_isothermal={}, elast_data=types.SimpleNamespace(cellmass=cellmass), qha_calculator=qha)
     cal.Calculator._calculate_compliances(me)
     return me, cal.CijVolumeBaseInterface(me)
